@@ -175,7 +175,8 @@ def replay_cmp(pid, path):
 
 # ======================================================================= text / object family
 OBJ = {
-    "C04": {"modes": ["parse"], "mc": {"quick": [("text", "MCText.tla", "MCText.cfg")], "thorough": [("text", "MCText.tla", "MCText.cfg")]},
+    "C04": {"modes": ["parse"], "mc": {"quick": [("text", "MCText.tla", "MCText.cfg"), ("parser", "MCParser.tla", "MCParser_quick.cfg")],
+                                       "thorough": [("text", "MCText.tla", "MCText.cfg"), ("parser", "MCParser.tla", "MCParser_thorough.cfg")]},
             "rule": "texts parsed with all six hash types by from_bytes_with_last_index (index preset to a sentinel), from_bytes and str::parse: all texts up to length 4(5) over {3,6,1,0,9,:,',',A,/,!,0x80}; structured texts (every block size spelling class x block hashes of up to 3 runs with lengths from {0,1,3,4,7,29..36,61..68,100,200} x terminators); the capacity-border run family; byte-level mutations of accepted texts and generator output. non-trivial = texts beyond the exhaustive tiny-alphabet part",
             "nontrivial": ("parse", "structured")},
     "C05": {"modes": ["fmt", "parse"], "mc": {"quick": [("text", "MCText.tla", "MCText.cfg")], "thorough": [("text", "MCText.tla", "MCText.cfg")]},
@@ -187,10 +188,11 @@ OBJ = {
     "C07": {"modes": ["dual"], "mc": {"quick": [("dual_c8a2", "MCDual.tla", "MCDual_c8a2.cfg")], "thorough": [("dual_c8a2", "MCDual.tla", "MCDual_c8a2.cfg"), ("dual_c8a3", "MCDual.tla", "MCDual_c8a3.cfg"), ("dual_c12a2", "MCDual.tla", "MCDual_c12a2.cfg")]},
             "rule": "raw hashes of both capacities (run layouts of C06, runs needing exactly N/4 RLE symbols, runs ending at the capacity, random) turned into dual hashes by 7 routes (from_raw_form, From, init_from_raw_form into a dirty object, new_from_internals, new_from_internals_near_raw, str::parse, from_bytes); every route: validity, raw form (fresh and into a dirty destination), normalised part, texts, pairwise ==/cmp/Hash; normalize_in_place. non-trivial = raw hashes",
             "nontrivial": ("dual", "hashes")},
-    "C11": {"modes": ["hist", "ctor"], "mc": {"quick": [("dual_c8a2", "MCDual.tla", "MCDual_c8a2.cfg")], "thorough": [("dual_c8a2", "MCDual.tla", "MCDual_c8a2.cfg")]},
+    "C11": {"modes": ["hist", "ctor"], "mc": {"quick": [("objects", "MCObjects.tla", "MCObjects.cfg"), ("dual_c8a2", "MCDual.tla", "MCDual_c8a2.cfg")],
+                                              "thorough": [("objects", "MCObjects.tla", "MCObjects.cfg"), ("dual_c8a2", "MCDual.tla", "MCDual_c8a2.cfg")]},
             "rule": "histories over 12 typed object slots (two per type): every operation of the conversion graph from a fresh value into a destination that holds the longest possible content, followed by every operation that reads the written slot; random histories of 50..200 steps (set from internals, parse, generator output, 60 operations incl. into_mut_*, init_from_raw_form, try_into_mut_short, in-place normalisation); after every step is_valid / full_eq against a rebuilt object / {:?} / text of the written slot. Constructor calls (4 plain + 2 dual constructors x 6 types) with one contract clause violated at a time. non-trivial = history steps + constructor calls aimed at a clause",
             "nontrivial": ("hist", "steps")},
-    "C15": {"modes": ["hist"], "mc": {"quick": [("dual_c8a2", "MCDual.tla", "MCDual_c8a2.cfg")], "thorough": [("dual_c8a2", "MCDual.tla", "MCDual_c8a2.cfg")]},
+    "C15": {"modes": ["hist"], "mc": {"quick": [("objects", "MCObjects.tla", "MCObjects.cfg")], "thorough": [("objects", "MCObjects.tla", "MCObjects.cfg"), ("dual_c8a2", "MCDual.tla", "MCDual_c8a2.cfg")]},
             "rule": "the conversion steps of the object histories (see C11): after any chain the destination holds the value the DIRECT conversion gives (run-collapsed iff the target type or the operation normalises), widening/narrowing round trips, narrowing fails iff block hash 2 is longer than 32 and then leaves the destination as it was, text differs at most by run collapsing. non-trivial = history steps",
             "nontrivial": ("hist", "steps")},
     "C16": {"modes": ["ord"], "mc": {"quick": [("order", "MCOrder.tla", "MCOrder.cfg")], "thorough": [("order", "MCOrder.tla", "MCOrder.cfg")]},
@@ -323,7 +325,7 @@ def check_c14(pid, tier):
             out = fresh_dir("tr_C14_%s_%s" % (name, prof))
             run_harness(binp, ["c14", "--seed", str(seed()), "--tier", tier, "--out", out, "--shards", "3"])
             runs.append((name, prof, out))
-    for name, mod, cfg in [("dual_c8a2", "MCDual.tla", "MCDual_c8a2.cfg"), ("hashes_scaled", "MCHashes.tla", "MCHashes_scaled.cfg")]:
+    for name, mod, cfg in [("parser_strict_lemmas", "MCParser.tla", "MCParser_quick.cfg"), ("hashes_scaled", "MCHashes.tla", "MCHashes_scaled.cfg")]:
         v.add_mc(run_mc(name, mod, cfg))
     # (1) every configuration conforms to the one specification (strict parser: STRICT = TRUE)
     cache = {}
